@@ -5,25 +5,49 @@ use crate::refmath;
 /// A modulus value 2 <= q < 2^maxbits (maxbits <= 61) with interesting shapes over-represented.
 pub fn modulus_value(minbits: u32, maxbits: u32) -> BoxedStrategy<u64> {
     assert!(minbits >= 2 && maxbits <= 61 && minbits <= maxbits);
-    (minbits..=maxbits, 0u8..10, any::<u64>()).prop_map(move |(bits, shape, r)| {
-        let lo = 1u64 << (bits - 1);
-        let hi = if bits == 64 { u64::MAX } else { (1u64 << bits) - 1 };
-        let clamp = |v: u64| v.clamp(lo.max(2), hi);
-        match shape {
-            0 => clamp(lo),                       // 2^k
-            1 => clamp(lo + 1),                   // 2^k + 1
-            2 => clamp(hi),                       // 2^k - 1
-            3 => clamp(hi - (r % 4)),             // just below the top
-            4 => {                                // a prime of that size (search downwards a little)
-                let mut v = clamp(lo + r % (hi - lo + 1)) | 1;
-                let mut n = 0;
-                while !refmath::is_prime(v) && n < 200 { v = if v + 2 > hi { lo | 1 } else { v + 2 }; n += 1; }
-                clamp(v)
-            }
-            5 => clamp((lo + r % (hi - lo + 1)) & !1),  // even
-            _ => clamp(lo + r % (hi - lo + 1)),
+    (minbits..=maxbits, 0u8..10, any::<u64>()).prop_map(move |(bits, shape, r)| modulus_from(bits, shape, r)).boxed()
+}
+/// the mapping behind `modulus_value` (shared with the fuzz decoder)
+pub fn modulus_from(bits: u32, shape: u8, r: u64) -> u64 {
+    let lo = 1u64 << (bits - 1);
+    let hi = if bits == 64 { u64::MAX } else { (1u64 << bits) - 1 };
+    let clamp = |v: u64| v.clamp(lo.max(2), hi);
+    match shape {
+        0 => clamp(lo),                       // 2^k
+        1 => clamp(lo + 1),                   // 2^k + 1
+        2 => clamp(hi),                       // 2^k - 1
+        3 => clamp(hi - (r % 4)),             // just below the top
+        4 => {                                // a prime of that size (search downwards a little)
+            let mut v = clamp(lo + r % (hi - lo + 1)) | 1;
+            let mut n = 0;
+            while !refmath::is_prime(v) && n < 200 { v = if v + 2 > hi { lo | 1 } else { v + 2 }; n += 1; }
+            clamp(v)
         }
-    }).boxed()
+        5 => clamp((lo + r % (hi - lo + 1)) & !1),  // even
+        _ => clamp(lo + r % (hi - lo + 1)),
+    }
+}
+/// fuzz decoders: the same choices drawn from fuzzer bytes
+pub fn modulus_decode(src: &mut crate::fuzz::Src, minbits: u32, maxbits: u32) -> u64 {
+    let bits = src.incl(minbits as u64, maxbits as u64) as u32; let shape = src.below(10) as u8; let r = src.u64();
+    modulus_from(bits, shape, r)
+}
+pub fn limb_decode(src: &mut crate::fuzz::Src) -> u64 {
+    match src.below(11) { 0..=2 => src.u64(), 3 => 0, 4 | 5 => u64::MAX, 6 => 1u64 << 63, 7 => 1, 8 => u64::MAX - 1, 9 => 1u64 << src.below(64), _ => u64::MAX >> src.below(64) }
+}
+pub fn limbs_decode(src: &mut crate::fuzz::Src, len: usize) -> Vec<u64> {
+    let v: Vec<u64> = (0..len).map(|_| limb_decode(src)).collect();
+    limbs_mode(v, src.below(8) as u8)
+}
+/// the post-processing behind `limbs`
+pub fn limbs_mode(mut v: Vec<u64>, mode: u8) -> Vec<u64> {
+    match mode {
+        0 => { let x = v[0]; for l in v.iter_mut() { *l = x; } }  // equal words
+        1 => { for l in v.iter_mut() { *l = u64::MAX; } }
+        2 => { let n = v.len(); for l in v.iter_mut().skip(n / 2 + 1) { *l = 0; } }       // short significant part
+        _ => {}
+    }
+    v
 }
 
 /// an operand relative to q: boundary values and uniform below `bound` (exclusive; bound>=1)
@@ -64,15 +88,7 @@ pub fn limb() -> BoxedStrategy<u64> {
 
 /// multi-word value of exactly `len` limbs (may have zero top limbs)
 pub fn limbs(len: usize) -> BoxedStrategy<Vec<u64>> {
-    (proptest::collection::vec(limb(), len), 0u8..8).prop_map(|(mut v, mode)| {
-        match mode {
-            0 => { let x = v[0]; for l in v.iter_mut() { *l = x; } }  // equal words
-            1 => { for l in v.iter_mut() { *l = u64::MAX; } }
-            2 => { let n = v.len(); for l in v.iter_mut().skip(n / 2 + 1) { *l = 0; } }       // short significant part
-            _ => {}
-        }
-        v
-    }).boxed()
+    (proptest::collection::vec(limb(), len), 0u8..8).prop_map(|(v, mode)| limbs_mode(v, mode)).boxed()
 }
 
 /// does any word have its top bit set / is all-ones (carry-prone)?
